@@ -204,6 +204,19 @@ def api_streams(seed, tier):
     out.append(Stream("shell-boundaries", "topo", "topo.check", cases,
                       "radii at, and one / two float steps below and above, the lattice distances sqrt{1,2,3,4,5,8,9,10,13,16} on 1- to 4-dimensional lattices, centre / corner / last index"))
 
+    # 2a'. consecutive queries (same worker thread, one after the other) that differ ONLY in the total size while the enclosing lattice stays the same
+    cases = []
+    for (nd, sizes) in ((2, (40, 38, 37, 49, 43)), (2, (10, 16, 11, 12)), (3, (27, 20, 9, 26)), (1, (7, 6, 5))):
+        for r in (bits(1.0), R_SQRT2, bits(3.0)):
+            for index in (0, 4):
+                for prof in (0, 1):
+                    for nt in sizes:
+                        cases.append(nbr_case(prof, nt, nd, 2, index, r))
+    stq = Stream("same-lattice-other-size", "topo", "topo.check", cases,
+                 "runs of consecutive find_neighbors queries with identical dimension, index and radius whose total sizes share one enclosing lattice (40, 38, 37, 49, 43 in 2-D ...): each answer is that of its own size")
+    stq.per_shard = 400
+    out.append(stq)
+
     # 2b. long one-dimensional topologies (release build: x * x, no oracle table), compared with the model AND
     #     with the geometric set (the checker does not apply the theorems' size condition: verdict 0/1, never 2)
     cases = long_1d_cases(1, rng, {"quick": [2, 2, 3, 3, 3, 3], "thorough": [6] * 6, "search": [6] * 6}[tier])     # quick: 16 cases = one per worker
